@@ -579,6 +579,19 @@ func runC15(r *Run) {
 		}
 		r.Floor("R11", "bank moves naming a staking pool in Haqq code", nPool, 3)
 	}
+	r.Rule("R12", "PATH.evm-never-burns-from-a-blocked-address: the EVM keeper's SetBalance reconciles the bank balance with the balance cached in the StateDB. Raising a blocked (module / precompile) address's balance is refused inside the bank keeper (SendCoinsFromModuleToAccount); lowering it must be refused too — the burn branch (SendCoinsFromAccountToModule + BurnCoins) is reachable only over the failing edge of BlockedAddr(addr). A staking pool's cached balance goes stale when a precompile delegates behind the StateDB's back; one wei sent to the pool address afterwards makes the final Commit 'reconcile' the pool down to the stale value — coins that back delegations are burned and staking/module-accounts breaks")
+	if sb, ok := P.FnOK("(*x/evm/keeper.Keeper).SetBalance"); ok {
+		notBlocked, _ := guardPassEdges(sb, func(cond ssa.Value) (bool, bool) {
+			c, ok := cond.(*ssa.Call)
+			return false, ok && callInfo(c).Name == "BlockedAddr"
+		})
+		isBurn := isCallMatching(func(ci CallInfo) bool { return ci.Name == "BurnCoins" || ci.Name == "SendCoinsFromAccountToModule" })
+		w := PathQuery{Fn: sb, Target: isBurn, DelEdge: edgeSet(notBlocked)}.Search()
+		r.Check(w == nil && len(notBlocked) > 0, "R12", fnID(sb)+"#burn-branch-refuses-blocked", P.Pos(fnPos(sb)), "burn reachable only where BlockedAddr(addr) is false",
+			"the EVM keeper lowers the bank balance of any address to the StateDB's cached value, module accounts included: a stale cached balance of the bonded / not-bonded pool (or the distribution account) is written back and the difference burned — the module invariants no longer hold", P.witness(w)...)
+	} else {
+		r.Bad("R12", "anchor/evm Keeper.SetBalance", "", "not found")
+	}
 	r.Rule("R10", "see C05 R2 and R6 (imported): an Ethereum transaction — a direct call of the staking or distribution precompile included — runs on a cache context that is written only when the execution succeeded, and an out-of-gas panic inside a precompile is a failed execution: the SDK's staking and distribution operations are not atomic on their own (pool transfer, then validator update, then reward-period bookkeeping), so a failed call that is not rolled back leaves exactly the half-done state the module invariants forbid")
 	r.Import("R10/C05.", []string{"R2", "R6", "R9"}, runC05)
 }
